@@ -50,6 +50,9 @@ def visitor_methods():
         if isinstance(m, ast.FunctionDef) and m.name.startswith("visit_") and len(m.args.args) >= 2:
             p = m.args.args[1].arg
             out[m.name] = {n.attr for n in ast.walk(m) if isinstance(n, ast.Attribute) and isinstance(n.value, ast.Name) and n.value.id == p}
+            # the whole type handed on to a helper: what the helper looks at is not decided syntactically
+            if any(isinstance(n, ast.Call) and any(isinstance(a, ast.Name) and a.id == p for a in n.args) for n in ast.walk(m)):
+                out[m.name].add("*delegated*")
     return out
 
 
@@ -75,8 +78,8 @@ def check_cover():
             obs.append({"name": f"indirect-cover/{cls}.{attr}", "status": "discharged", "where": f"mypy/indirection.py {meth}"})
         elif (cls, attr) in EXEMPT:
             obs.append({"name": f"indirect-cover/exempt/{cls}.{attr}", "status": "discharged", "where": str(meth), "detail": EXEMPT[(cls, attr)]})
-        elif meth not in vm:
-            obs.append({"name": f"indirect-cover/{cls}.{attr}", "status": "unknown", "where": f"no indirection visitor method {meth}"})
+        elif meth not in vm or "*delegated*" in vm[meth]:
+            obs.append({"name": f"indirect-cover/{cls}.{attr}", "status": "unknown", "where": f"no indirection visitor method {meth}, or it hands the type on to a helper"})
         else:
             obs.append({"name": f"indirect-cover/{cls}.{attr}", "status": "refuted", "where": f"mypy/indirection.py {meth}",
                         "detail": f"{cls}.{attr} is a component type of {cls} (its cache writer serializes it) but {meth} never looks at it: modules it refers to are missing from the indirect dependencies",
